@@ -235,11 +235,17 @@ def solve_all(lp, limit=2000000, aux_order='lo'):
 
 
 class Backend(object):
-    def __init__(self, mode='eb', choices=(), keep_sets=True, hook=None, salt=0, aux_order=None):
+    def __init__(self, mode='eb', choices=(), keep_sets=True, hook=None, salt=0, aux_order=None,
+                 ones_as=None):
         self.mode = mode
         self.choices = list(choices)
         self.salt = int(salt or 0)
         self.aux_order = aux_order or ('hi' if self.salt % 2 else 'lo')
+        # a MILP solver reports a binary that is one as any value within its integrality
+        # tolerance (CBC: 1e-6); 10% of the salts make the back end do so for the pair variables
+        self.ones_as = ones_as if ones_as is not None else \
+            {7: 0.9999999, 23: 0.9999999, 31: 1.0000001, 43: 0.9999999, 53: 1.0000001,
+             59: 0.9999999}.get(self.salt, 1.0)
         self.keep_sets = keep_sets
         self.records = []
         self.fell_back = False
@@ -335,8 +341,8 @@ class Backend(object):
             self._cross_check(solver_self, lp, rec, opt * sign, kwargs)
         pick = O[self._choose(len(O))]
         rec.chosen = pick[0]
-        for v, val in zip(vs, pick[2]):
-            v.varValue = float(val)
+        for k, (v, val) in enumerate(zip(vs, pick[2])):
+            v.varValue = self.ones_as if (k < nproj and val == 1) else float(val)
         lp.assignStatus(constants.LpStatusOptimal, constants.LpSolutionOptimal)
         rec.status = 'Optimal'
         self.records.append(rec)
